@@ -188,14 +188,21 @@ open MythVerif.Wsq (Elem Pid Holder)
    program steps and store-buffer drains: the machine of `Model/WsQueueTso.lean`, i.e.
      * owner `push` WITH re-centring (at `top == size`: lock, `abort()` iff `base == 0`, else
        `memmove` down by `(-base-1)/2`, `top += offset`, `base += offset`, unlock, then the push
-       proper), `pop` – fast path, locked slow path, reset path – and `put` WITH re-centring (at
+       proper), `pop` – fast path, locked slow path including the invalidation of the steal cache's
+       pointer word (`if (top <= base) wc->ptr = NULL`), reset path – and `put` WITH re-centring (at
        `base == 0`: `abort()` iff `top == size`, else `memmove` up by `(size-top+1)/2`,
        `top += offset`, `base += offset`, then the insertion proper in the same locked section,
        no fence in between);
      * any number of other participants, each running any sequence of `myth_queue_take`,
        `myth_queue_trypass` (trylock – a failure returns 0; `base == 0` returns 0; slot store,
-       `base--`, unlock) and `myth_queue_peek` (lock-free loads of `base`, `top`, one slot; nothing
-       is removed and the value read is only a hint to the caller – nothing is claimed about it).
+       `base--`, unlock), `myth_queue_peek` (lock-free loads of `base`, `top`, one slot; nothing
+       is removed and the value read is only a hint to the caller – nothing is claimed about it),
+       `myth_wsapi_runqueue_take` (trylock – a failure returns NULL; `base++`, fence, comparison,
+       slot read, decision callback as a separate label with either verdict: accept = linearization
+       point, then `wc->ptr = NULL`, unlock; decline = roll-back of `base`, unlock) and the caching
+       `myth_wsapi_runqueue_peek` (cache test, trylock – a failure restarts; second cache test,
+       `base++`, fence, comparison, slot read, `wc->ptr = th`, roll-back, unlock, return of the
+       cached word as a hint).  Of the steal cache only the pointer word is modelled, as under SC.
    put and trypass linearize when their `base` store DRAINS (the slot store precedes it in the same
    FIFO buffer), for trypass possibly while the owner is inside a lock-free push or pop.
    A re-centring `memmove` is ONE buffer entry (`Sto.shift`); the header of the model file says why
@@ -204,14 +211,13 @@ open MythVerif.Wsq (Elem Pid Holder)
    the lock-free loads of `top` / `base` (quick checks, peek) may see the half-updated pair – their
    values are unconstrained in the invariant (`exRcHint` below exhibits such a read).  The two
    `abort()`s (`stuck`, `stuckL`) happen only on a full deque.
-   Not covered: the wsapi variants (take with decision callback, wsapi peek), the steal cache,
-   clear.  Modelling simplification (DESIGN A.3): the releasing store of unlock is performed on
+   Not covered: clear.  Modelling simplification (DESIGN A.3): the releasing store of unlock is performed on
    memory right after its fence. -/
 
-/-- **No loss, no duplication under x86-TSO store buffering (partial: push / pop / put / take /
-trypass / peek).**
+/-- **No loss, no duplication under x86-TSO store buffering (partial: everything except clear).**
 In every reachable state of the store-buffer machine with the fences of the source, for every
-capacity and any number of other participants (each running take, trypass or peek, in any order):
+capacity and any number of other participants (each running take, wsapi take, trypass, peek or
+wsapi peek, in any order, the decision callback answering either way):
 the TSO invariant holds (buffer shapes, memory-side window `[lb, mem.top)` = prefix of `A`,
 `mem.base = lb (+1 while a thief's increment is visible)`), every value returned equals the element
 removed at the linearization point, nothing is returned twice, and inserted = deque + in flight +
@@ -223,7 +229,10 @@ targets the slot below the logical base (as the issuing participant sees it: `lb
 buffer's view of that slot is the element it will insert when it drains; the overflow tests
 `base == 0` of put and trypass read the logical base; `abort()` ("Runqueue overflow") is reached
 only when the deque holds `size` elements (`lb = 0`, `lt = size`), and the tests that guard it read
-the logical values. -/
+the logical values; while the decision callback of wsapi take is asked the candidate is the head of
+the (non-empty) deque, and if it declines, then after the roll-back store, its drain and the unlock
+the deque, the slots, `top` and the returned / inserted lists are as before, `base` is the logical
+base again and the lock is free. -/
 theorem C02_no_loss_no_dup_tso_partial (n : Int) (s : St) (h : Reachable step (init FenceCfg.code n) s) :
     Inv s ∧
     (s.ins.Nodup → s.retd.Nodup ∧ (s.A ++ (s.flT.toList ++ (s.flO.toList ++ s.retd))).Perm s.ins) ∧
@@ -243,11 +252,19 @@ theorem C02_no_loss_no_dup_tso_partial (n : Int) (s : St) (h : Reachable step (i
         (s.A.length : Int) = s.size ∧ s.lb = 0 ∧ s.lt = s.size ∧ s.top = s.size ∧ s.base = 0 ∧
         s.lock = .owner ∧ s.bufO = []) ∧
      (∀ e, s.opc = .pub e → viewBase s.bufO s.base = s.lb ∧ s.lt = s.size) ∧
-     (∀ e, s.opc = .pt2 e → viewTop s.bufO s.top = s.lt ∧ s.lb = 0)) := by
+     (∀ e, s.opc = .pt2 e → viewTop s.bufO s.top = s.lt ∧ s.lb = 0)) ∧
+    (∀ p b r, s.tpc p = .wkd b r →
+      r = s.A.head? ∧ s.A ≠ [] ∧
+      ∃ s1 s2 s3 s4, step s (.tDecide p false) = some s1 ∧ step s1 (.t p) = some s2 ∧
+        step s2 (.flushT p) = some s3 ∧ step s3 (.t p) = some s4 ∧
+        s4.A = s.A ∧ s4.retd = s.retd ∧ s4.ins = s.ins ∧ s4.ptr = s.ptr ∧ s4.top = s.top ∧
+        s4.base = s4.lb ∧ s4.lb = s.lb ∧ s4.lock = .free ∧ s4.tpc p = .idle ∧ s4.bufT p = []) := by
   have hi := reachable_inv n s h
-  exact ⟨hi, no_loss_no_dup n s h, ghost_branches_unreachable s hi, quiescent_mem s hi,
+  obtain ⟨g1, g2, g3, _⟩ := ghost_branches_unreachable s hi
+  exact ⟨hi, no_loss_no_dup n s h, ⟨g1, g2, g3⟩, quiescent_mem s hi,
     ⟨owner_baseI s hi, thief_baseI s hi⟩, base_tests_logical s hi,
-    stuck_only_when_full s hi, (overflow_tests_logical s hi).1, (overflow_tests_logical s hi).2⟩
+    ⟨stuck_only_when_full s hi, (overflow_tests_logical s hi).1, (overflow_tests_logical s hi).2⟩,
+    decline_spec s hi⟩
 
 /-! non-vacuity (TSO machine): the owner pushes 1, 2, 3 (capacity 8) with the stores of the last
     push still buffered, starts a pop (its `top` store buffered behind them), and a thief takes
@@ -257,7 +274,7 @@ def exTso : List Lbl :=
   [oPush 1, o, o, o, o, flushO, flushO, oPush 2, o, o, o, o, flushO, flushO, oPush 3, o, o, o, o,
    oPop, o, o,
    tTake 0, t 0, t 0, t 0, t 0, flushT 0, t 0, t 0, t 0, t 0,
-   flushO, flushO, flushO, o, o, o, o, o, o, flushO, o]
+   flushO, flushO, flushO, o, o, o, o, o, o, o, flushO, o]
 
 example : (runs step (init FenceCfg.code 8) exTso).map
     (fun s => (s.retd, s.A, s.top, s.base, s.bufO)) = some ([3, 1], [2], 6, 5, []) := by decide
@@ -295,7 +312,7 @@ open Lbl in
 /-- put on an empty deque, then pop returns the element through the locked slow path -/
 def exPutPop : List Lbl :=
   [oPut 5, o, o, o, o, o, flushO, flushO, o,
-   oPop, o, o, flushO, o, o, o, o, o, o, flushO, o]
+   oPop, o, o, flushO, o, o, o, o, o, o, o, o, flushO, flushO, o]
 
 example : (runs step (init FenceCfg.code 8) exPutPop).map
     (fun s => (s.retd, s.A, s.top, s.base, s.bufO)) = some ([5], [], 3, 3, []) := by decide
@@ -417,7 +434,7 @@ def exPassSlow : List Lbl :=
    o, flushO, o, o,
    tPass 0 9, t 0, t 0, t 0, t 0, t 0,
    o, flushT 0, flushT 0, t 0,
-   o, o, o, o, flushO, o]
+   o, o, o, o, o, o, flushO, flushO, o]
 
 example : (runs step (init FenceCfg.code 8) exPassSlow).map
     (fun s => (s.retd, s.A, s.top, s.base, s.opc)) = some ([9, 1], [], 4, 4, .idle) := by decide
@@ -430,5 +447,50 @@ example : (runs step (init FenceCfg.code 8) [oPut 2, o, tPass 0 9, t 0]).map
 open Lbl in
 example : (runs step (init FenceCfg.code 1) [tPass 0 9, t 0, t 0]).map
     (fun s => (s.tpc 0, s.bufT 0, s.A)) = some (.tp4 false, [], []) := by decide
+
+
+/-! wsapi take with a declining callback (capacity 8, element 5 pushed and drained): participant 1
+    trylocks, increments `base` (drained by its fence), reads slot 4 and asks the callback; on a
+    decline the roll-back store is buffered, drains, and the unlock leaves everything as it was; on
+    an accept 5 is returned and the cache word is cleared -/
+open Lbl in
+def exDecidePre : List Lbl :=
+  [oPush 5, o, o, o, o, flushO, flushO,
+   tWTake 1, t 1, t 1, t 1, t 1, flushT 1, t 1, t 1, t 1]
+
+example : (runs step (init FenceCfg.code 8) exDecidePre).map (fun s => (s.tpc 1, s.A, s.tr, s.base, s.lock)) =
+    some (.wkd 4 (some 5), [5], true, 5, .thief 1) := by decide
+
+open Lbl in
+example : (runs step (init FenceCfg.code 8) (exDecidePre ++ [tDecide 1 false, t 1])).map
+    (fun s => (s.tpc 1, s.bufT 1, s.base, s.tr)) = some (.wk6, [.base 4], 5, true) := by decide
+open Lbl in
+example : (runs step (init FenceCfg.code 8) (exDecidePre ++ [tDecide 1 false, t 1, flushT 1, t 1])).map
+    (fun s => (s.tpc 1, s.A, s.retd, s.base, s.lock)) = some (.idle, [5], [], 4, .free) := by decide
+open Lbl in
+example : (runs step (init FenceCfg.code 8) (exDecidePre ++ [tDecide 1 true, t 1, flushT 1, t 1])).map
+    (fun s => (s.tpc 1, s.A, s.retd, s.base, s.lock)) = some (.idle, [], [5], 5, .free) := by decide
+
+/-! wsapi peek fills the cache word (stores of the cache word and of the roll-back buffered together),
+    the owner's slow-path pop of the last element clears it again -/
+open Lbl in
+def exWPeekPre : List Lbl :=
+  [oPush 5, o, o, o, o, flushO, flushO,
+   tWPeek 2, t 2, t 2, t 2, t 2, t 2, t 2, flushT 2, t 2, t 2, t 2, t 2, t 2]
+
+example : (runs step (init FenceCfg.code 8) exWPeekPre).map (fun s => (s.tpc 2, s.bufT 2, s.cache, s.A)) =
+    some (.vu, [.cache (some 5), .base 4], none, [5]) := by decide
+
+open Lbl in
+def exWPeek : List Lbl :=
+  exWPeekPre ++ [flushT 2, flushT 2, t 2, t 2]
+
+example : (runs step (init FenceCfg.code 8) exWPeek).map (fun s => (s.tpc 2, s.cache, s.A, s.base, s.lock)) =
+    some (.idle, some 5, [5], 4, .free) := by decide
+
+open Lbl in
+example : (runs step (init FenceCfg.code 8)
+    (exWPeek ++ [oPop, o, o, flushO, o, o, o, o, o, o, o, o, flushO, flushO, o])).map
+    (fun s => (s.opc, s.retd, s.cache, s.A, s.bufO)) = some (.idle, [5], none, [], []) := by decide
 
 end MythVerif.WsqTso
